@@ -9,6 +9,9 @@ def base(rnd, **kw):
     c = dict(dseed=rnd.randrange(1 << 30), srand=rnd.randrange(1 << 30), shuffle=rnd.randrange(1 << 30), timeout=300,
              ticks=50000000)
     c.update(kw)
+    # half of the cases label the samples by a random permutation instead of 0..N-1 (positions != values)
+    if c.get("mode") not in ("lmsel",) and rnd.random() < 0.5:
+        c["plabel"] = 1
     return c
 
 
